@@ -8,6 +8,9 @@ def intCsv (s : String) : Option (List Int) :=
 def showIntCsv (l : List Int) : String :=
   if l.isEmpty then "-" else ",".intercalate (l.map toString)
 
+def showNatCsv (l : List Nat) : String :=
+  if l.isEmpty then "-" else ",".intercalate (l.map toString)
+
 def showElems (l : List Elem) : String :=
   if l.isEmpty then "-" else ",".intercalate (l.map fun e => s!"{e.key}:{e.seq}:{e.pos}")
 
@@ -76,9 +79,9 @@ def stepOpt (ts : List String) : Option String :=
       -- (Props/C07.lean: first `size` elements of the stable k-merge; stable variants: begins = their counts)
       let spec := kMergeTake cmp.fn seqs size
       let specOut := if stable then spec else canon cmp.fn spec
-      let counts : List Int := (List.range seqs.length).map fun i => ((spec.filter (fun e => e.seq == i)).length : Int)
+      let counts : List Nat := (List.range seqs.length).map fun i => (spec.filter (fun e => e.seq == i)).length
       let okSpec := out == specOut && r.ret == (size : Int) && ((!r.parallel && !stable) || r.begins == counts)
-      pure s!"out {showElems out} ret {r.ret} begins {showIntCsv r.begins} win {showWindows r} spec {if okSpec then 1 else 0}"
+      pure s!"out {showElems out} ret {r.ret} begins {showNatCsv r.begins} win {showWindows r} spec {if okSpec then 1 else 0}"
   | _ => none
 
 def step (_ : Unit) (ts : List String) : Unit × String :=
